@@ -412,6 +412,9 @@ pub struct EnginePosCase {
     pub second: Vec<String>,
     pub search_between: bool,
     pub new_game_between: bool,
+    /// the first list is a take-back shuffle (a b a' b' a b a'): repetitions are in reach of the next search
+    #[serde(default)]
+    pub shuffle: bool,
 }
 
 fn engine_pos_case(r: &gen::RawPlayout, cut: u16, pick: u16, kind: u8, bad: u8) -> EnginePosCase {
@@ -444,7 +447,26 @@ fn engine_pos_case(r: &gen::RawPlayout, cut: u16, pick: u16, kind: u8, bad: u8) 
     };
     // well-formed move texts only (the GUI line must parse; legality is the engine's business)
     let second: Vec<String> = second.into_iter().map(|m| if Mv::parse(&m).is_some() { m } else { "a1a1".to_string() }).collect();
-    EnginePosCase { fen: g.start.fen(), first, second, search_between: pick % 3 == 0, new_game_between: pick % 5 == 0 }
+    // a game with repetitions in its history, then a command that must be rejected
+    if kind <= 3 && pick % 4 == 1 {
+        let mut st = g.start.clone();
+        st.ep = None;
+        if let Some([a, b, a2, b2]) = crate::props::c10::shuffle_quad_pub(&st, pick / 4) {
+            let line = [a, b, a2, b2, a, b, a2];
+            let first: Vec<String> = line.iter().map(Mv::uci).collect();
+            // the rejected command fails after j of the held game's moves (j = 7: it extends the whole game)
+            let j = (pick / 16) as usize % 8;
+            let mut second: Vec<String> = first[..j].to_vec();
+            let mut q = st.clone();
+            for m in &line[..j] {
+                q = q.apply(*m);
+            }
+            let badm = bad_move_for(&q, pick, bad % 7);
+            second.push(if Mv::parse(&badm).is_some() { badm } else { "a1a1".to_string() });
+            return EnginePosCase { fen: st.fen(), first, second, search_between: false, new_game_between: false, shuffle: true };
+        }
+    }
+    EnginePosCase { fen: g.start.fen(), first, second, search_between: pick % 3 == 0, new_game_between: pick % 5 == 0, shuffle: false }
 }
 
 pub fn check_engine_position(c: &EnginePosCase, ctx: &mut Ctx) -> Result<(), String> {
@@ -477,6 +499,26 @@ pub fn check_engine_position(c: &EnginePosCase, ctx: &mut Ctx) -> Result<(), Str
     let want = eng::eng_fen(&eng::board_from_pos(&expected));
     if held != want {
         return Err(format!("{what}: the engine now holds {held}, expected {want}"));
+    }
+    // after a rejected command the engine behaves exactly like one that never received it: same answer to `go depth 2`
+    // as a fresh engine given only the accepted command (everything is deterministic at a fixed depth)
+    if after_second.is_none() && !c.search_between && !c.new_game_between && !expected.legal_moves().is_empty() {
+        let mut f = Session::new();
+        f.position(&c.fen, &c.first)?;
+        let (a, b) = (s.search(&GoSpec::depth(2)), f.search(&GoSpec::depth(2)));
+        f.quit()?;
+        match (a, b) {
+            (Wait::Done(x), Wait::Done(y)) => {
+                let sx = x.last_scored().and_then(|i| i.score).map(|v| crate::engsess::score_text(&v));
+                let sy = y.last_scored().and_then(|i| i.score).map(|v| crate::engsess::score_text(&v));
+                if sx != sy || x.best_uci() != y.best_uci() {
+                    return Err(format!("{what}: go depth 2 now answers {:?} / {sx:?}, an engine that only received the first command answers {:?} / {sy:?}", x.best_uci(), y.best_uci()));
+                }
+                ctx.class(if c.shuffle { "rejected_after_repetition_history_same_answer_as_fresh_engine" } else { "rejected_same_answer_as_fresh_engine" });
+            }
+            (Wait::Timeout, _) | (_, Wait::Timeout) => return Err(format!("HARNESS: watchdog at {what}")),
+            _ => return Err(format!("{what}: no answer to go depth 2")),
+        }
     }
     match s.search(&GoSpec::depth(1)) {
         Wait::Done(o) => {
